@@ -31,6 +31,7 @@ for d in sorted(glob.glob(f'{H}/seeded/*/')):
         if pid not in armed:
             verdict += ' [check not armed yet]'
         meta['check_cmd'] = f'git -C /repo apply seeded/{name}/patch.diff && ./check {pid} --no-evidence; git -C /repo checkout -- .'
+        meta.pop('analysis_error', None)
         meta['check_exit'] = out.returncode
         meta['check_result'] = verdict
         meta['fired'] = [f'{r} key={k}' for r, k in fired][:12]
